@@ -18,10 +18,12 @@ use std::time::Instant;
 
 fn iv(i: i128) -> Value { Value::Integer((i as i64).into()) }
 
+fn big(i: i128) -> Value { Value::Integer(ciborium::value::Integer::try_from(i).unwrap()) }
+
 fn boundary_int(rng: &mut impl Rng) -> Value {
-    let c: [i128; 14] = [0, 1, 23, 24, 255, 256, 65535, 65536, 4294967295, 4294967296, i64::MAX as i128, -1, -25, i64::MIN as i128];
-    let x = c[rng.gen_range(0..c.len())];
-    if x > i64::MAX as i128 || x < i64::MIN as i128 { iv(0) } else { iv(x) }
+    let c: [i128; 18] = [0, 1, 23, 24, 255, 256, 65535, 65536, 4294967295, 4294967296, i64::MAX as i128, -1, -25, i64::MIN as i128,
+        u64::MAX as i128, i64::MAX as i128 + 1, i64::MIN as i128 - 1, -(u64::MAX as i128) - 1];
+    big(c[rng.gen_range(0..c.len())])
 }
 
 /// one structure-aware mutation somewhere in the tree
@@ -205,6 +207,13 @@ pub fn run(ctx: &mut Ctx) {
         let (real, _, _, _) = auth::outcome_str(&r);
         ctx.emit.line("corr", "model:device-key-in-mso", format!("resp.outcome {f}"), real, serde_json::json!({"key": name, "msg_hex": hex::encode(to_bytes(&v))}));
         report(ctx, "handle_response", "hostile-device-key", r.is_err(), secs, &to_bytes(&v), r.as_ref().err().map(|s| s.as_str()).unwrap_or(""));
+    }
+    for x in [u64::MAX as i128, i64::MIN as i128 - 1, -(u64::MAX as i128) - 1] {
+        let mut v = live.resp.clone();
+        if let Some(items) = auth::items_mut(&mut v, sess::NS) { for it in items.iter_mut() { if let Value::Tag(24, inner) = it { if let Value::Bytes(b) = &mut **inner {
+            if let Ok(mut iv) = cbor::from_slice::<Value>(b) { if let Some(ev) = mget_mut(&mut iv, "elementValue") { *ev = big(x); } *b = to_bytes(&iv); } } } } }
+        let t = Instant::now(); let r = live.deliver(&v); let secs = t.elapsed().as_secs_f64();
+        report(ctx, "handle_response", "extreme-integer-element-value", r.is_err(), secs, &to_bytes(&v), r.as_ref().err().map(|s| s.as_str()).unwrap_or(""));
     }
     for date in BOUNDARY_DATES {
         let mut v = live.resp.clone(); set_dates(&mut v, date);
